@@ -15,12 +15,12 @@ RULE = "case = (centroider, frame shape, content, threshold / fraction / padding
 ASSUMPTIONS = ["centroids are returned as (x, y) = (column, row)", "array centre for the correlation centroid = pixel N // 2 (the zero-lag position after fftshift)",
                "brightest-pixel fractions select at least two pixels and the maximum is unique"]
 REQUIRED = ["centroiders.py:centre_of_gravity", "centroiders.py:brightest_pixel", "centroiders.py:correlation_centroid",
-            "centroiders.py:cross_correlate", "centroiders.py:quadCell"]
+            "centroiders.py:quadCell"]
 REQUIRED_COUNTERS = ["argument_shadow_checks", "stack_vs_frame_groups", "shift_groups", "scale_groups"]
 
 
 def plan(tier, seed):
-    return [{"shard": i, "reps": 30 if tier == "quick" else 15000} for i in range(16)]
+    return [{"shard": i, "reps": 80 if tier == "quick" else 15000} for i in range(16)]
 
 
 def content(rng, ny, nx, margin, dtype, compact=False):
@@ -60,6 +60,9 @@ def run(ctx, spec):
     for rep in range(spec["reps"]):
         ny = int(rng.integers(8, 25))
         nx = ny if rng.random() < 0.5 else int(rng.integers(8, 25))
+        special_frac = rng.random() < 0.3
+        if special_frac and rng.random() < 0.6:
+            ny, nx = ny | 1, nx | 1            # odd number of pixels
         dtype = [np.float64, np.float32, np.int64, np.int32][int(rng.integers(0, 4))]
         tolr = 2e-5 if dtype == np.float32 else 1e-11
         kmax = 2
@@ -74,6 +77,12 @@ def run(ctx, spec):
         ctx.case("single_pixel", key=(ny, nx, px, py, str(dtype)), nontrivial=True, sample={"shape": (ny, nx), "pixel_xy": (px, py)})
         ctx.close("cog_single_pixel", pure_call(ctx, "centre_of_gravity", C.centre_of_gravity, one), np.array([px, py], float), 1e-12, "centre_of_gravity:single_pixel", wit)
         frac = float(rng.uniform(2.0 / (nx * ny), 0.9))
+        if special_frac:
+            # fractions for which fraction x pixels is an integer or exactly a half-integer (0.5 on odd frames, ...): ties of the rounding
+            cands = [0.5, 0.1, 0.3, 0.25, 0.75, 0.2, 0.7, 0.9] + [(2 * int(k) + 1) / (2.0 * nx * ny) for k in rng.integers(2, nx * ny // 2, 6)]
+            half = [c for c in cands if (c * nx * ny) % 1.0 == 0.5 and c * nx * ny >= 2]
+            frac = float(rng.choice(half)) if half and rng.random() < 0.7 else float(rng.choice(cands[:8]))
+            ctx.count("brightest_pixel_fractions_on_a_rounding_tie", int((frac * nx * ny) % 1.0 == 0.5))
         ctx.close("bp_single_pixel", pure_call(ctx, "brightest_pixel", C.brightest_pixel, one, frac), np.array([px, py], float), 1e-12, "brightest_pixel:single_pixel", wit)
         st1 = np.stack([one, np.roll(one, 1, axis=1) if px + 1 < nx else one])
         got = C.centre_of_gravity(st1)
@@ -132,6 +141,13 @@ def run(ctx, spec):
         if np.all(np.isfinite(bbase)):
             ctx.check(np.array_equal(C.brightest_pixel(fimg * c2, frac), bbase), "brightest_pixel:scale_invariance", "not bit-identical under scaling by %g" % c2, wit)
             ctx.close("bp_scale_random", C.brightest_pixel(fimg * cr, frac), bbase, 1e-11 * max(nx, ny), "brightest_pixel:scale_invariance", wit)
+        # faint and bright frames (photon rates in any unit): positive factors of any size, the thresholded paths included
+        ce = float(10.0 ** int(rng.integers(-40, 41)))
+        ctx.close("cog_scale_extreme", C.centre_of_gravity(fimg * ce, thr), base, 1e-11 * max(nx, ny), "centre_of_gravity:scale_invariance:extreme_factor", dict(wit, factor=ce, threshold=thr))
+        ctx.close("cog_scale_extreme_stack", C.centre_of_gravity(fst * ce, thr), C.centre_of_gravity(fst, thr), 1e-11 * max(nx, ny),
+                  "centre_of_gravity:scale_invariance:extreme_factor:stack", dict(wit, factor=ce, threshold=thr))
+        if np.all(np.isfinite(bbase)):
+            ctx.close("bp_scale_extreme", C.brightest_pixel(fimg * ce, frac), bbase, 1e-11 * max(nx, ny), "brightest_pixel:scale_invariance:extreme_factor", dict(wit, factor=ce, fraction=frac))
         q = rng.random((2, 2)) + 0.1
         qb = pure_call(ctx, "quadCell", C.quadCell, q)
         ctx.case("quadCell", key=("q", float(q.sum())), nontrivial=True)
@@ -207,6 +223,9 @@ def run(ctx, spec):
                       "correlation_centroid:large_displacement:padded", wf)
         # scale invariance and stack handling
         ctx.close("corr_scale", C.correlation_centroid(im[None] * cr, ref.copy(), cthr, pad), got3, 1e-9 * max(nx, ny), "correlation_centroid:scale_invariance", w6)
+        ce2 = float(10.0 ** int(rng.integers(-30, 31)))
+        ctx.close("corr_scale_extreme", C.correlation_centroid(im[None] * ce2, ref * ce2, cthr, pad), got3, 1e-9 * max(nx, ny),
+                  "correlation_centroid:scale_invariance:extreme_factor", dict(w6, factor=ce2))
         ctx.close("corr_scale_ref", C.correlation_centroid(im[None].copy(), ref * cr, cthr, pad), got3, 1e-9 * max(nx, ny), "correlation_centroid:scale_invariance:reference", w6)
         others = [np.roll(ref, (int(rng.integers(-kmax, kmax + 1)), int(rng.integers(-kmax, kmax + 1))), axis=(0, 1)) * (i + 1.0) for i in range(int(rng.integers(1, 4)))]
         cst = np.stack([im] + others)
